@@ -213,6 +213,10 @@ def to_list(d):
         return items(d["array"], d["at"], d["at"] + 1)[0]
     if d["class"] == "NumpyArray" and d["array"].ndim == 0:
         return _leaf(d["array"][()])
+    if d["class"] == "NumpyArray" and d["array"].ndim == 1 and _param(d, "__array__") in ("char", "byte"):
+        # a string taken out of an array of strings: the characters alone, still marked char/byte
+        raw = bytes(bytearray(int(x) & 0xFF for x in d["array"].tolist()))
+        return raw.decode("utf-8", "surrogateescape") if _param(d, "__array__") == "char" else raw
     return items(d)
 
 
